@@ -1,4 +1,4 @@
 (* C07: the section model run on lock-event traces of the implementation (ml/driver_conc.ml) *)
 Require Import ZArith List. Require Extraction. Require Import ExtrOcamlBasic.
-Require Import IW.CC.Sections.
-Extraction "m.ml" Z.add Z.mul Z.sub Z.div_eucl Z.compare Z.of_nat Z.to_nat Z.opp stale_after unguarded_logs outer_violations compile nlogs.
+Require Import IW.CC.Sections IW.CC.Balance.
+Extraction "m.ml" Z.add Z.mul Z.sub Z.div_eucl Z.compare Z.of_nat Z.to_nat Z.opp stale_after unguarded_logs outer_violations compile nlogs trace_balanced.
